@@ -22,6 +22,11 @@ Oracle readings (the weaker one wherever the statement leaves room, see DESIGN.m
   min(requested, available) (urwid lets the margins give way first, which is inside that range).
 * "split according to the percentage to within rounding": |left extra - spare*pct/100| < 1.
 * zero weights / zero given sizes: only "no negative / non-integer dimension, no crash" is asserted.
+* "every combination of given, packed and weighted children" is a combination of *options*, however the
+  caller wrote them down: constructor tuples (int / 'given' / WHSettings.GIVEN / legacy 'fixed', 'pack' / legacy
+  'flow', 'weight' / bare widget), or (widget, options) entries put into .contents with a plain tuple of
+  strings (as the contents docstring spells them), of WHSettings members, or built by .options().  The oracle
+  never looks at the spelling; cases carry it in "spell".
 """
 from __future__ import annotations
 
@@ -47,11 +52,16 @@ RULE = (
     "focus position, maxcol 1..24 (lists of <=3 children use the full option set, longer lists a reduced one in the "
     "quick tier); get_column_sizes + render with probe children incl. box_columns flags and box-sized Columns on a "
     "reduced grid; box Pile get_item_rows for <=4 items (given 1..6 / pack rows 0..6 / weight) x maxrow 1..24 and "
-    "get_rows_sizes + render on a reduced grid; calculate_left_right_padding and calculate_top_bottom_filler for "
+    "get_rows_sizes + render on a reduced grid; the Columns / Pile render grids again with the options written in "
+    "every other documented spelling (constructor tuples with 'given'/'pack'/'weight' strings, WHSettings members, "
+    "legacy 'fixed'/'flow'/bare widget; .contents entries as plain string tuples, WHSettings tuples, or built by "
+    ".options() from a string or a member) for all children and in two per-child mixtures; "
+    "calculate_left_right_padding and calculate_top_bottom_filler for "
     "every align kind (left/center/right, relative 0..100 step 5), given sizes 1..12, relative 0..100 step 5 with "
     "min None/1/3/6, clip, margins 0..5 x 0..5, sizes 1..30; Padding / Filler / Overlay rendered with a probe child "
     "on reduced grids; GridFlow with <=7 cells, cell width 1..6, h_sep 0..2, v_sep 0..1, maxcol 1..30.  Hypothesis "
-    "beyond those ranges (up to 8 children, sizes up to 200, weights incl. fractions, arbitrary percentages).  "
+    "beyond those ranges (up to 8 children, sizes up to 200, weights incl. fractions, arbitrary percentages, a "
+    "spelling drawn per child).  "
     "A configuration is one (widget options, size) pair; a case carries a size range so one case = many "
     "configurations (counted as class 'cfg:*').  Non-trivial: a column/row has to be dropped or the weighted "
     "space leaves a remainder (Columns/Pile); the requested size does not fit beside the margins or the spare "
@@ -65,6 +75,9 @@ ASSUMPTIONS = [
     "a tree during which urwid emits one of its own sizing warnings (other than 'too narrow size' / 'Size is "
     "smaller than cell width', which describe the not-fitting case the property covers) is mis-built and discarded",
     "ASCII-only probe glyphs: the result does not depend on the byte encoding",
+    "the option spellings used are the ones the constructor docstrings / type hints, the contents docstrings and "
+    "options() document, plus the constructor's backwards-compatible 'fixed' / 'flow' forms; children spelled "
+    "through .contents are inserted after construction and the focus is then set with focus_position",
 ]
 
 BOX, FLOW, FIXED = urwid.BOX, urwid.FLOW, urwid.FIXED
@@ -1200,13 +1213,13 @@ def pile_cases(option_sets, maxrow=(1, 24), render=False, zero=False):
                 yield case
 
 
-def spelled(cases, key):
+def spelled(cases, key, uniform_upto=99):
     """every case of the stream under every other spelling: each of the seven non-default spellings for all
-    children, and (two children or more) two mixed assignments - child i spelled SPELLS[(i + r) % 8] for r = 0
-    and r = 4, so that neighbouring children are spelled differently and every spelling meets every position"""
+    children (lists of at most `uniform_upto` children), and (two children or more) two mixed assignments -
+    child i spelled SPELLS[(i + r) % 8] for r = 0 and r = 4, so that neighbouring children are spelled differently"""
     for case in cases:
         n = len(case[key])
-        variants = list(SPELLS[1:])
+        variants = list(SPELLS[1:]) if n <= uniform_upto else []
         if n > 1:
             variants += [[SPELLS[(i + r) % len(SPELLS)] for i in range(n)] for r in (0, 4)]
         for sp in variants:
@@ -1215,9 +1228,10 @@ def spelled(cases, key):
             yield c
 
 
-def columns_spelled_cases(max_n, maxcol=(1, 14)):
+def columns_spelled_cases(max_n, uniform_upto, maxcol=(1, 14)):
     """the render grid of columns_render_cases at dividechars 1, min_width 2, under every spelling"""
-    return spelled((c for c in columns_render_cases(max_n, maxcol) if c["d"] == 1 and c["mw"] == 2), "children")
+    return spelled((c for c in columns_render_cases(max_n, maxcol) if c["d"] == 1 and c["mw"] == 2), "children",
+                   uniform_upto)
 
 
 ALIGNS_H = [["left", 0], ["center", 0], ["right", 0]] + [["relative", p] for p in range(0, 101, 5)]
@@ -1469,9 +1483,9 @@ def shard(ctx):
     sweep("pile", spelled(pile_cases({n: PILE_REDUCED for n in range(1, ctx.scale(3, 4) + 1)}, maxrow=(1, 14), render=True), "items"),
           _pile_nontrivial, _pile_classes,
           "Pile get_item_rows + get_rows_sizes + render, reduced option set, every spelling of the options + 2 mixed")
-    sweep("columns", columns_spelled_cases(ctx.scale(3, 4)), _columns_nontrivial, _columns_classes,
+    sweep("columns", columns_spelled_cases(ctx.scale(3, 4), ctx.scale(2, 3)), _columns_nontrivial, _columns_classes,
           "Columns column_widths + get_column_sizes + render, small option set, dividechars 1, min_width 2, every "
-          "spelling of the options + 2 mixed")
+          "spelling of the options (quick <=2, thorough <=3 children) + 2 mixed (all lengths)")
     sweep("grid", grid_cases(ctx.scale(5, 7)), _grid_nontrivial, _grid_classes, "GridFlow cells<=7, cell width 1..6, maxcol 1..30")
 
     given("columns", _columns_case(), 300, 8000, _columns_nontrivial, _columns_classes)
